@@ -693,6 +693,7 @@ func Run(r *ev.Run) {
 		} else {
 			m.phaseSubstPG()
 		}
+		m.phaseComments()
 	}
 	setDialect(sqlgen.MySQL)
 	// non-vacuity
@@ -711,6 +712,7 @@ func Run(r *ev.Run) {
 	r.RequireAtLeast("pg_rewrite_leaves_replaced", int64(r.Pick(150, 4000)))
 	r.RequireAtLeast("pg_search_rewrites", int64(r.Pick(50, 2000)))
 	r.RequireSetAtLeast("generated_kinds_round_tripped", 12)
+	commentGuards(r)
 }
 
 func (m *mon) phaseRoundTrip(harvested []sqlgen.Harvested) {
